@@ -7,7 +7,7 @@ C07_FILE_JOBS = [
     dict(name="reader-edge-chunk", harness="C07_file.cpp", entries=["harness_edge_chunk"], shards=[{0: 1, 1: 1}, {0: 2, 1: 1}, {0: 4, 1: 1}], timeout=600, tiers=["thorough"],
          bounds="read_topo_chunk on a one-edge TOPO chunk, 4 vertices read so far: symbolic span.first, handle_encoding byte, handle_offset (64 bit) and handle bytes: "
                 "no memory error; accepted => exactly one edge whose vertex handles are < 4", **FILE_JOB),
-    dict(name="reader-face-then-cell", harness="C07_file.cpp", entries=["harness_face_then_cell"], shards=[{1: 1}, {1: 0}], timeout=900,
+    dict(name="reader-face-then-cell", harness="C07_file.cpp", entries=["harness_face_then_cell"], shards=[{1: 1}, {1: 0}], timeout=900, tiers=["thorough"],
          bounds="reader state after VERT (4) + EDGES (6) of a tetrahedron; FACE chunk with one triangle of three SYMBOLIC 1-byte halfedge handles and symbolic 64-bit handle_offset, "
                 "then a CELL chunk referring to halffaces 0,1 of that face; topology_check on / off: no memory error, faces counted as read == faces in the mesh, "
                 "stored handles designate existing entities (a kernel-rejected add_face must not leave later handle validation too weak)", **FILE_JOB),
